@@ -93,6 +93,9 @@ def main():
                                 "tape": res.get("tape", []),
                                 "violations": res["violations"],
                                 "digest": res.get("digest"),
+                                "events_tail": res.get("events", [])[-80:],
+                                "log_tail": res.get("log_tail", [])[-25:],
+                                "thread_dump": res.get("thread_dump", []),
                             }
                         )
                 reply({"op": "batch", "runs": runs, "violations": viols, "errors": errors})
